@@ -162,7 +162,7 @@ package tls
 //@ spec ksEncWalk(ks) = ksEnc(0) == 6 && forall j in 0..len(ks): ksEnc(j+1) == ksEnc(j) + 4 + len(ks[j].Data)
 
 //@ func (*KeyShareExtension).keySharesLen
-//@   property C08 C02
+//@   property C08 C02 C17 C18
 //@   let n = len(e.KeyShares)
 //@   requires e != nil
 //@   requires walk: ksEncWalk(e.KeyShares)
@@ -176,7 +176,7 @@ package tls
 //@   loop 0 invariant forall j in 0..$k: 6 <= ksEnc(j) && ksEnc(j+1) <= ksEnc($k)
 
 //@ func (*KeyShareExtension).Len
-//@   property C08 C02
+//@   property C08 C02 C17 C18
 //@   let n = len(e.KeyShares)
 //@   requires e != nil
 //@   requires walk: ksEncWalk(e.KeyShares)
@@ -188,7 +188,7 @@ package tls
 //@   ensures one: n == 1 ==> ret == 10 + len(e.KeyShares[0].Data)
 
 //@ func (*KeyShareExtension).Read
-//@   property C08 C02
+//@   property C08 C02 C17 C18
 //@   let n = len(e.KeyShares)
 //@   let L = ksEnc(n)
 //@   let ks = e.KeyShares
